@@ -155,6 +155,13 @@ func editResync(r *Run) {
 		case 4:
 			c.Rename = 3
 		}
+		across16k := false
+		if c.S <= 4096 && t.Bool(1, 15, "across-16k") {
+			// a file reaching a few slices beyond 16 KiB, edited around that boundary
+			c.N1 = 16384 + t.Draw(3*c.S+1, "beyond-16k")
+			across16k = true
+			r.Probe("edit-around-16KiB")
+		}
 		c.L = 1 + t.Draw(2*c.S+3, "L")
 		switch t.Pick([]int{3, 3, 1, 1}, "p-class") {
 		case 0:
@@ -165,6 +172,9 @@ func editResync(r *Run) {
 			c.P = 0
 		case 3:
 			c.P = c.N1
+		}
+		if across16k {
+			c.P = 16384 - c.S + t.Draw(3*c.S, "p-16k")
 		}
 		if c.P > c.N1 {
 			c.P = c.N1
